@@ -62,9 +62,10 @@ Cfg6 ==
      await |-> [h \in {"h1", "h2"} |-> IF h = "h1" THEN M("after_STOP_ACTIVITY", 0) ELSE t2],
      crit |-> [h \in {"h1", "h2"} |-> IF h = "h1" THEN c1 ELSE TRUE],
      fails |-> f \cup {"h2"}, plan |-> <<"START_ACTIVITY", "STOP_ACTIVITY", "STOP_ACTIVITY">>, bodyfails |-> {}, teardown |-> TRUE,
-     quiet |-> {2}, once |-> {"h2"}] :
+     quiet |-> {2}, once |-> o] :
       t1 \in {M("enter_RUNNING", 0), M("after_START_ACTIVITY", 0), M("before_STOP_ACTIVITY", -1)},
       t2 \in {M("before_STOP_ACTIVITY", 0), M("leave_RUNNING", 0)},
-      c1 \in BOOLEAN, f \in SUBSET {"h1"} }
+      c1 \in BOOLEAN, f \in SUBSET {"h1"},
+      o \in {{"h2"}, {}} }     \* (h2 fails the first time only / every time: then the request through the API is cancelled as well)
 CfgAll == Cfg2Valid \cup Cfg3Valid \cup Cfg4 \cup Cfg5 \cup Cfg6
 =============================================================================
